@@ -42,6 +42,24 @@ Theorem C16_sf_axis_perm : forall dom F, dft_spec dom F -> forall i shape h x,
 Proof. exact c16_sf_axis_perm. Qed.
 Print Assumptions C16_sf_axis_perm.
 
+(* np.flip = index reflection composed with a cyclic shift (flip_index_arith) *)
+Theorem C16_sf_flip_perm : forall dom F, dft_spec dom F -> forall shape h ax s x,
+  dom shape -> Forall (fun n => (0 < n)%nat) shape ->
+  Permutation (sf_pairs F shape h (fun n => x (reflect_idx shape ax (shift_idx shape s n)))) (sf_pairs F shape h x).
+Proof. exact c16_sf_flip_perm. Qed.
+Print Assumptions C16_sf_flip_perm.
+
+(* any product of adjacent transpositions = any permutation of the axes *)
+Theorem C16_sf_axis_perm_seq : forall dom F, dft_spec dom F -> forall swaps,
+  (forall i s, dom s -> dom (swap_at i s)) ->
+  forall shape h x, dom shape -> Forall (fun n => (0 < n)%nat) shape -> length h = length shape ->
+  Permutation (sf_pairs F (fold_left (fun l i => swap_at i l) swaps shape)
+                        (fold_left (fun l i => swap_at i l) swaps h)
+                        (fun n => x (fold_right (fun i m => swap_at i m) n swaps)))
+              (sf_pairs F shape h x).
+Proof. exact c16_sf_axis_perm_seq. Qed.
+Print Assumptions C16_sf_axis_perm_seq.
+
 Theorem C16_k_is_fftfreq : forall n h m, (0 < n)%nat -> h <> 0 ->
   wave_number n h m = IZR (fft_int_freq n m) * (2 * PI / (INR n * h)) /\
   k2_component n h m = wave_number n h m ^ 2.
